@@ -216,11 +216,13 @@ decode_tag_internal(ev_uint32_t *ptag, struct evbuffer *evbuf, int dodrain)
 		return (-1);
 
 	while (count++ < len) {
-		ev_uint8_t lower = *data++;
+		ev_uint8_t lower;
+		/* Make sure it fits into 32 bits; a sixth byte would also lie
+		 * beyond what was pulled up above. */
+		if (shift > 28)
+			return (-1);
+		lower = *data++;
 		if (shift >= 28) {
-			/* Make sure it fits into 32 bits */
-			if (shift > 28)
-				return (-1);
 			if ((lower & 0x7f) > 15)
 				return (-1);
 		}
